@@ -7,6 +7,7 @@ import (
 	"sort"
 	"strings"
 
+	"github.com/nspcc-dev/neo-go/pkg/core/native/nativehashes"
 	"github.com/nspcc-dev/neo-go/pkg/core/native/noderoles"
 	"github.com/nspcc-dev/neo-go/pkg/core/state"
 	"github.com/nspcc-dev/neo-go/pkg/core/transaction"
@@ -225,6 +226,21 @@ func Observe(n *Node, w *world) (*Observation, error) {
 	}
 	o.Sections["roles"] = sum([]byte(strings.Join(roles, "\n")))
 	o.Detail["roles"] = strings.Join(roles, " ")
+
+	// native Oracle contract: the request price as the node answers it now (kept in a native cache that a restart rebuilds
+	// from storage) and the number of stored requests / id lists (their content is part of the storage section; the
+	// designated Oracle nodes are part of the roles section)
+	ora := "price=" + runScript(n, callScript(nativehashes.OracleContract, "getPrice"), 0)
+	if ocs := bc.GetContractState(nativehashes.OracleContract); ocs != nil {
+		nreq, nlist := 0, 0
+		bc.SeekStorage(ocs.ID, []byte{oraPfxRequest}, func(k, v []byte) bool { nreq++; return true })
+		bc.SeekStorage(ocs.ID, []byte{oraPfxIDList}, func(k, v []byte) bool { nlist++; return true })
+		ora += fmt.Sprintf(" requests=%d urls=%d", nreq, nlist)
+	} else {
+		ora += " no-contract-state"
+	}
+	o.Sections["oracle"] = ora
+	o.Detail["oracle"] = ora
 
 	var bal []string
 	for i, a := range w.accounts {
